@@ -57,6 +57,11 @@ def corpus_histories():
     for r, w, forms in GRAMMAR_CORPUS:
         items.append((base, [{"kind": "register", "wkind": "Guess", "reading": r, "word": w}] +
                             [{"kind": "convert", "input": fr, "context": "Normal", "expect": fw} for fr, fw in forms]))
+    # nouns whose readings use the rarer characters of the dictionary alphabet (long-vowel mark, small kana, ゔ-less voiced rows, latin letters)
+    nouns = [("らーめん", "拉麺"), ("でーた", "資料"), ("こーひー", "珈琲"), ("ふぁいる", "書類"), ("じぇっと", "噴射"), ("tel", "電話"), ("ゐど", "井戸"), ("ゑ", "絵"), ("っ", "促音"), ("ー", "長音")]
+    for kind in ("CommonNoun", "ProperNoun"):
+        items.append((base, [{"kind": "register", "wkind": kind, "reading": r, "word": w} for r, w in nouns] +
+                            [{"kind": "convert", "input": r, "context": "Normal", "expect": w} for r, w in nouns]))
     return items
 
 
@@ -142,7 +147,7 @@ def run(tier, seed):
         "rule": "registrations of the three kinds (guess kind with every ending the guesser recognises) with readings over the dictionary alphabet and written forms incl. ASCII and '/' ';', interleaved with conversions; "
                 "afterwards every conjugated form (computed by the real library) is converted and must be offered; probes before / after must only grow; non-trivial = a registration changes a probe's candidate list",
         "histories": len(runs), "traces_validated_against_impl": n_model, "concurrent_requests": conc,
-        "samples": [runs[len(GRAMMAR_CORPUS)].requests[3:8]],
+        "samples": [runs[len(GRAMMAR_CORPUS) + 2].requests[3:8]],
     }
     return res.finish(cov, ["readings outside the dictionary alphabet are not convertible (the property excludes them)"])
 
